@@ -111,7 +111,10 @@ def run_family(rep, cfg, pat, floor, prop):
                 reads = eff.reads
                 viol = ctx.violations
         except (Incomplete, IRError) as e:
-            rep.incomplete('value:' + tag, 'matrix-value', site, str(e))
+            if 'outside a contracted kernel' in str(e) and not contracted:
+                kernel_fallback(rep, cfg, dem, base, W, ps, exp_w, exp_ret, coef, coefext, is8, tag, site)
+            else:
+                rep.incomplete('value:' + tag, 'matrix-value', site, str(e))
             continue
         except Sink as e:
             rep.refute('safety:' + tag, 'matrix-safety', sink_site(e, site), str(e))
@@ -156,3 +159,46 @@ def run_family(rep, cfg, pat, floor, prop):
                                'call of %s: operand %s has %s (lanes %s)' % (callee.split('(')[0], opnd, detail, sorted(set(lanes))))
             else:
                 rep.ok('pre:' + tag, 'callsite-precondition', site, '%d kernel call sites, all operands within the callee contracts' % len(ctx.sites))
+
+
+def kernel_fallback(rep, cfg, dem, base, W, ps, exp_w, exp_ret, coef, coefext, is8, tag, site):
+    """the routine does raw integer arithmetic on lane values (a hand-written horizontal sum): analysed on exact integers
+    with every lane tracked; the lane kernels and scalar primitives it calls are replaced by their contracts"""
+    from . import kprove, kcheck
+    from .poly import M32
+    smod = front.module(cfg, sroa=True)
+    try:
+        name = smod.find(dem)
+    except KeyError:
+        rep.incomplete('value:' + tag, 'matrix-value', site, 'routine not found in the SROA module')
+        return
+    arg_cells = []
+    sym = {}
+    for i, p_ in enumerate(ps):
+        cells = []
+        dt = p_.dty
+        if p_.name == coef:
+            n = coefext[coef]
+            ts = 'bits8' if is8 else 'u64'
+        elif re.match(r'V\d', dt):
+            n = W
+            ts = 'u64'
+        elif dt.startswith('E'):
+            n = max([off // 8 + 1 for (r_, off) in exp_w if r_ == p_.name] or [1])
+            ts = 'u64'
+        else:
+            rep.incomplete('value:' + tag, 'matrix-value', site, 'parameter %s of type %s in the kernel-mode fallback' % (p_.name, dt))
+            return
+        for k in range(n):
+            nm = '%s_%d_' % (p_.name.replace('_', ''), k)
+            sym['%s[%d]' % (p_.name, k)] = Poly.var(nm + 'h') * M32 + Poly.var(nm + 'l')
+            cells.append((8 * k, nm, ts))
+        arg_cells.append(cells)
+    idx = {p_.name: i for i, p_ in enumerate(ps)}
+
+    def conv(poly):
+        return poly.subst({a: sym[a] for a in poly.vars() if a in sym})
+    out_cells = [(idx[r_], off, conv(sp)) for (r_, off), sp in sorted(exp_w.items(), key=str)]
+    r = kprove.prove_routine_all_lanes(smod, name, arg_cells, out_cells, conv(exp_ret) if exp_ret is not None else None, sym, W=W)
+    kcheck.record(rep, 'value:' + tag, 'matrix-value-kernel', site, r,
+                  'raw integer arithmetic on lane values: exact-integer analysis with all lanes tracked, callees by contract')
